@@ -99,6 +99,9 @@ func runC01(r *Run) {
 	r.checkResolveFlow(P)
 	r.checkCandidateNoTrace(P, "OperationProcessor.applyFirstValidOperation")
 	r.checkCandidateNoTrace(P, "OperationProcessor.applyFirstValidCreateOperation")
+	// … and must not end the search: a forged candidate anchored first is skipped, the genuine one behind it applied
+	r.checkFirstApplicable(P, "OperationProcessor.applyFirstValidOperation")
+	r.checkFirstApplicable(P, "OperationProcessor.applyFirstValidCreateOperation")
 	r.checkEffectTable(P, false)
 	// an operation that is not authorised must not change the result by its mere presence: a commitment counts as
 	// consumed only once a state was produced from it (shared with C03), and supplied operations are dropped only as
